@@ -116,12 +116,60 @@ def run_shard(spec):
     raise ValueError(kind)
 
 
+def concurrent_dumps(res, rng, g, execnet):
+    """dumps() is a function of its argument: calls overlapping in several threads each return the v2 bytes of their own value"""
+    import sys
+    import threading
+
+    T = 3
+    work = []
+    for t in range(T):
+        vals = []
+        for _ in range(60):
+            v = g.value()
+            try:
+                vals.append((v, codec.encode(v)))
+            except RecursionError:
+                pass
+        work.append(vals)
+    bad: list = []
+    start = threading.Barrier(T)
+
+    def worker(t):
+        start.wait(10)
+        for _round in range(3):
+            for v, refb in work[t]:
+                try:
+                    b = execnet.dumps(v)
+                except BaseException as e:  # noqa
+                    bad.append((t, f"{type(e).__name__}: {e}", short(v)))
+                    continue
+                if b != refb:
+                    bad.append((t, f"{len(b)} bytes instead of {len(refb)}", short(v)))
+
+    old = sys.getswitchinterval()
+    sys.setswitchinterval(1e-5)
+    try:
+        ths = [threading.Thread(target=worker, args=(t,), daemon=True) for t in range(T)]
+        for th in ths:
+            th.start()
+        for th in ths:
+            th.join(60)
+    finally:
+        sys.setswitchinterval(old)
+    res.count("concurrent_dumps_calls", sum(len(w) for w in work) * 3)
+    if bad:
+        res.violation("concurrent-dumps-bytes-differ-from-v2-format", f"{len(bad)} of the overlapping calls; first: thread {bad[0][0]}: {bad[0][1]} for {bad[0][2]}")
+
+
 def run_values(spec):
     import execnet
 
     res = Result()
     rng = core.rng_for("C12", spec["tier"], spec["seed"], spec["shard"])
     g = values.Gen(rng, max_bytes=3000, huge_ints=False)
+    unsupported = values.unsupported_leaves()
+    concurrent_dumps(res, rng, g, execnet)
     for i in range(spec["n"]):
         v = g.special(i // 11 + spec["shard"]) if i % 11 == 0 else g.value()
         cv = values.canon(v)
@@ -132,6 +180,16 @@ def run_values(spec):
         res.case(core.h64(refb))
         if i < 2:
             res.sample({"value": short(v, 120), "hex": refb.hex()[:160]})
+        if i % 7 == 3:
+            # a dumps() that fails half-way (unsupported leaf deep inside a container) must leave nothing behind
+            # that shows up in the bytes of the next one
+            nm, factory, hashable = unsupported[rng.randrange(len(unsupported))]
+            try:
+                bad, _path = values.plant(rng, g.value(), factory(), hashable, 2)
+                execnet.dumps(bad)
+            except BaseException:
+                pass
+            res.count("byte_compares_after_a_failed_dumps")
         try:
             b = execnet.dumps(v)
         except BaseException as e:
